@@ -58,7 +58,7 @@ const deadlineMS = 700
 
 func main() {
 	wit.Quiet()
-	wit.EnsureMetrics(nil)
+	wit.ProdMetrics() // as the shipped binary runs by default
 	run := ev.Start("C19", "exploration")
 	defer run.Finish()
 	run.Rule("(i) deterministic mutational sweep of add-checkpoint bodies (seeds: valid requests of every verdict class) through the real handler and real witness: no panic, status in {200,400,403,404,409,422,429,500}; (i') eight goroutines send state-independent bodies (malformed, unknown origin, bad signature) in fragments to ONE handler at the same time: no panic, each gets its own status; (ii) Proof.Unmarshal and the body parser on arbitrary and mutated bytes: no panic; (iii) hostile responses for all five feeders and the distributor, executed in child processes that log each case before running it: first answer in {valid, log-signed checkpoints with sizes {0,1,2^62-1,2^62,2^62+1,2^63-1,2^63,2^64-1} x root lengths {0,5,32,33}, truncated, random, empty, 5 MiB, 404, 500, redirect loop, stall, transport error} x other answers {404, random, empty, zero tile, 5 MiB, 500, stall} x witness {holds nothing, holds a small honest checkpoint}; each cycle has a context deadline D and must end with a result or an error by D+10 s, else the parent kills the child and attributes the hang to the logged case. evaluations = inputs executed; nontrivial = distinct (part, feeder, first-answer class, other-answer class, witness state, outcome class)")
